@@ -16,12 +16,13 @@ TRUSTED_BASE = [
     "(Print Assumptions of every property theorem: 'Closed under the global context')",
     "hand-written Gallina model /verif/coq/Model/*.v: the theorems are about it; it is tied to /repo by the "
     "correspondence components listed under 'components' (differential tests on this run's inputs)",
-    "table/constant translator harness/gen_tables.py (Python ast) -> coq/gen/{Elements,Grammar,Params}.v",
+    "table/constant translator harness/gen_tables.py (Python ast) -> coq/gen/{Elements,Grammar,Params}.v; "
+    "recogniser translator harness/gen_antlr.py (Python ast, fail-closed) tucanParser.py -> coq/gen/Antlr.v",
     "extraction with ExtrOcamlBasic only (Extract Inductive bool/option/unit/list/prod/sumbool/sumor, "
     "Extract Inlined Constant andb/orb/negb/fst/snd; no Extract Constant of this development); "
     "ocaml/driver.ml (int/string conversion, line protocol); the Python harness",
     "oracles assumed and tested, not proved: igraph/bliss canonical_permutation (H1 bijection, H2 canonical form), "
-    "ANTLR runtime + generated tucanParser.py, random.shuffle, float()/'{:.6f}', int(), networkx containers",
+    "ANTLR runtime (match/LA/sync with raising listeners) + serialized lexer ATN (the generated tucanParser.py itself is translated and proved; K12), random.shuffle, float()/'{:.6f}', int(), networkx containers",
 ]
 
 
@@ -39,6 +40,7 @@ def sh(cmd, timeout=None, cwd=None, env=None):
 class BuildResult:
     def __init__(self):
         self.gen = {}
+        self.antlr = {}
         self.make_ok = False
         self.make_log = ""
         self.driver_ok = False
@@ -63,6 +65,8 @@ def build(force_full=False):
         import gen_tables
         gen_tables.fallbacks.clear()
         res.gen = gen_tables.emit()
+        import gen_antlr
+        res.antlr = gen_antlr.emit()       # tucanParser.py -> coq/gen/Antlr.v (fail-closed translator)
         if not os.path.exists(os.path.join(COQ, "Makefile")) or \
                 os.path.getmtime(os.path.join(COQ, "Makefile")) < os.path.getmtime(os.path.join(COQ, "_CoqProject")):
             sh("coq_makefile -f _CoqProject -o Makefile", cwd=COQ, timeout=120)
